@@ -23,7 +23,8 @@ CONSTANTS NMsgs,      \* number of messages the sender sends
           Zlibs,      \* subset of BOOLEAN: compression settings explored
           Modes,      \* subset of {"classic", "etm", "aead"}: framing / verification modes a key epoch may have
           Partial,    \* TRUE: also explore the receiver inside read_all (header partly consumed, socket
-                      \*       timeouts, the need-rekey flag); FALSE: read_message is one step
+                      \*       timeouts, the need-rekey flag) and the sender inside write_all (send() accepts part
+                      \*       of the packet, times out); FALSE: read_message / send_message are one step each
           Mutations   \* seeded defects a behaviour may start with (cfg.mut), to show the properties bite:
                       \*   "nomac"  receiver skips MAC / tag verification
                       \*   "noseq"  sequence number left out of the MAC input
@@ -31,6 +32,8 @@ CONSTANTS NMsgs,      \* number of messages the sender sends
                       \*   "zin"    _activate_inbound keeps the old inflater
                       \*   "stalemode"  the "MAC is compared after decryption" decision is remembered from an earlier
                       \*                key epoch (switched off by an ETM / AEAD epoch, never switched on again)
+                      \*   "stalecount" write_all re-applies the byte count of the previous send() after a socket timeout
+                      \*                (bytes of the packet never reach the socket)
                       \*   "rekeydrop"  the idle-read NeedRekeyException also fires when part of the next packet's
                       \*                header has already been consumed (those bytes are lost)
 
@@ -41,6 +44,8 @@ VARIABLES cfg,        \* [strict, zlib, mode0, mut]: fixed per behaviour; mode0 
           arrived,    \* how many cells of `wire` (from its head) reached the receiver's socket
           sseq, sepoch, szid, szpos,      \* sender: sequence number, key epoch, deflater id / position
           smode,                          \* sender: framing mode of its current key epoch
+          wcells,     \* sender, write_all: cells of the LAST packet on the wire the socket has accepted so far
+          wlast,      \* sender, write_all: `n`, the number of cells the most recent send() accepted
           rseq, repoch, rzid, rzpos,      \* receiver: the same
           rmode,      \* receiver: framing mode of its current key epoch (etm / aead verify before decrypting)
           rtrail,     \* receiver: "compare the MAC after decryption" (what classic mode needs)
@@ -49,7 +54,7 @@ VARIABLES cfg,        \* [strict, zlib, mode0, mut]: fixed per behaviour; mode0 
           delivered,  \* Seq of what read_message returned: message id, or Alien
           rstate,     \* "ok" | "failed" (exception) | "waiting" (blocked for bytes that never come)
           nsw, ntamper
-svars == <<sseq, sepoch, szid, szpos, smode>>
+svars == <<sseq, sepoch, szid, szpos, smode, wcells, wlast>>
 rvars == <<rseq, repoch, rzid, rzpos, rmode, rtrail, rneed, taken, delivered, rstate>>
 vars  == <<cfg, sent, wire, arrived, svars, rvars, nsw, ntamper>>
 
@@ -77,6 +82,7 @@ FreshZOut == cfg.mut # "zout"
 FreshZIn  == cfg.mut # "zin"
 
 Init == /\ cfg \in [strict : Stricts, zlib : Zlibs, mode0 : Modes, mut : {"none"} \cup Mutations]
+        /\ wcells = Cells /\ wlast = 0
         /\ smode = cfg.mode0 /\ rmode = cfg.mode0 /\ rtrail = (cfg.mode0 = "classic") /\ rneed = FALSE /\ taken = 0
         /\ sent = <<>> /\ wire = <<>> /\ arrived = 0
         /\ sseq = 0 /\ sepoch = 0 /\ szid = 0 /\ szpos = 0
@@ -85,8 +91,11 @@ Init == /\ cfg \in [strict : Stricts, zlib : Zlibs, mode0 : Modes, mut : {"none"
 
 (* ---- sender ---- *)
 \* send_message: deflate (stream advances), _build_packet, encrypt, MAC over seqno||packet, seqno+1
+\* (the packet is handed to write_all; when Partial, the socket takes it piece by piece: PartialSend)
+Written == IF wire = <<>> THEN 0 ELSE Cells * (Len(wire) - 1) + wcells
 SendMessage ==
-    /\ Len(sent) < NMsgs
+    /\ Len(sent) < NMsgs /\ wcells = Cells
+    /\ wcells' = (IF Partial THEN 0 ELSE Cells) /\ wlast' = 0
     /\ sent' = Append(sent, Len(sent) + 1)
     /\ wire' = Append(wire, Pkt(Len(sent) + 1, "data"))
     /\ sseq' = (sseq + 1) % SeqMod
@@ -96,7 +105,8 @@ SendMessage ==
 \* _activate_outbound: NEWKEYS goes out under the old keys (and through the old deflater), then the
 \* keys, the algorithms (mode m), the deflater and (strict kex) the sequence number are replaced
 ActivateOutbound(m) ==
-    /\ nsw < MaxSwitch /\ m \in Modes
+    /\ nsw < MaxSwitch /\ m \in Modes /\ wcells = Cells
+    /\ wcells' = (IF Partial THEN 0 ELSE Cells) /\ wlast' = 0
     /\ wire' = Append(wire, [Pkt(NK, "newkeys") EXCEPT !.next = m])
     /\ smode' = m
     /\ sseq' = IF cfg.strict THEN 0 ELSE (sseq + 1) % SeqMod
@@ -106,10 +116,25 @@ ActivateOutbound(m) ==
     /\ nsw' = nsw + 1
     /\ UNCHANGED <<cfg, sent, arrived, rvars, ntamper>>
 
+\* write_all: `n = self.__socket.send(out)` accepted k cells of what was left; `out = out[n:]`
+PartialSend(k) ==
+    /\ Partial /\ wire # <<>> /\ wcells < Cells /\ k \in 1..(Cells - wcells)
+    /\ wcells' = wcells + k /\ wlast' = k
+    /\ UNCHANGED <<cfg, sent, wire, arrived, sseq, sepoch, szid, szpos, smode, rvars, nsw, ntamper>>
+\* write_all: send() raised socket.timeout / EAGAIN: `n = 0`, nothing is skipped, the loop sends the same `out`
+\* again (no state change).  A version that keeps the previous n skips that many cells of the packet: they never
+\* reach the socket, the packet on the wire is garbage.
+SendTimeout ==
+    /\ Partial /\ wire # <<>> /\ wcells < Cells
+    /\ cfg.mut = "stalecount" /\ wlast > 0
+    /\ wire' = [wire EXCEPT ![Len(wire)] = Lost(wire[Len(wire)])]
+    /\ wcells' = (IF wcells + wlast > Cells THEN Cells ELSE wcells + wlast) /\ wlast' = wlast
+    /\ UNCHANGED <<cfg, sent, arrived, sseq, sepoch, szid, szpos, smode, rvars, nsw, ntamper>>
+
 (* ---- network: bytes trickle in (socket reads return any split, timeouts in between) ---- *)
 Arrive(k) ==
     /\ k \in 1..MaxChunk
-    /\ arrived + k <= Cells * Len(wire)
+    /\ arrived + k <= Written
     /\ arrived' = arrived + k
     /\ UNCHANGED <<cfg, sent, wire, svars, rvars, nsw, ntamper>>
 
@@ -182,7 +207,7 @@ NeedRekeyOnIdle ==
 
 (* ---- attacker on the ciphertext stream (only on packets no byte of which has arrived yet) ---- *)
 Untouched(i) == i \in 1..Len(wire) /\ i > CeilDiv(arrived, Cells)
-Attack(w) == /\ ntamper < MaxTamper /\ ntamper' = ntamper + 1 /\ wire' = w
+Attack(w) == /\ wcells = Cells /\ ntamper < MaxTamper /\ ntamper' = ntamper + 1 /\ wire' = w
              /\ arrived' = IF arrived > Cells * Len(w) THEN Cells * Len(w) ELSE arrived
              /\ UNCHANGED <<cfg, sent, svars, rvars, nsw>>
 Mark(p, r) == [p EXCEPT !.intact = FALSE,
@@ -206,10 +231,11 @@ Attacker == \E i \in 1..(NMsgs + MaxSwitch + 1) :
 
 Next == SendMessage \/ (\E m \in Modes : ActivateOutbound(m)) \/ ReadMessage \/ (\E k \in 1..MaxChunk : Arrive(k)) \/ Attacker
         \/ RaiseNeedRekey \/ Consume \/ NeedRekeyOnIdle
+        \/ (\E k \in 1..Cells : PartialSend(k)) \/ SendTimeout
 Spec == Init /\ [][Next]_vars
 
 (* ---- properties (of the code as it is: cfg.mut = "none") ---- *)
-TypeOK == /\ arrived \in 0..(Cells * Len(wire))
+TypeOK == /\ arrived \in 0..Written /\ wcells \in 0..Cells
           /\ rstate \in {"ok", "failed", "waiting"}
           /\ sseq \in 0..(SeqMod - 1) /\ rseq \in 0..(SeqMod - 1)
           /\ taken \in 0..2 /\ rmode \in Modes /\ smode \in Modes
